@@ -133,6 +133,25 @@ Proof.
     destruct (class_of a) as [[]|]; try discriminate; reflexivity.
 Qed.
 
+Lemma analysis_reads_ok_true : analysis_reads_ok_b = true.
+Proof. vm_compute. reflexivity. Qed.
+
+Lemma every_option_read_is_keyed_or_classified : forall a fs f,
+  In (a, fs) analysis_reads -> In f fs ->
+  (class_of a = Some Key /\ In a ("platform" :: options_affecting_cache_no_platform))
+  \/ class_of a = Some Dir
+  \/ (class_of a = Some Inert /\ In f (reviewed_of a)).
+Proof.
+  intros a fs f H Hf. pose proof analysis_reads_ok_true as T. unfold analysis_reads_ok_b in T.
+  apply andb_true_iff in T as [T _].
+  pose proof (proj1 (forallb_forall _ _) T (a, fs) H) as T1. simpl in T1.
+  pose proof (proj1 (forallb_forall _ _) T1 f Hf) as R. unfold read_ok in R.
+  destruct (class_of a) as [[]|] eqn:C; try discriminate.
+  - left. split; auto. apply key_class_in_snapshot; exact C.
+  - right; left; reflexivity.
+  - right; right. split; auto. apply mem_In; exact R.
+Qed.
+
 (* model-level witness: an analysis that reads an option outside the key gives a stale warm result *)
 Lemma stale_outside_key_refuted :
   let K := options_affecting_cache_no_platform in
